@@ -160,6 +160,18 @@ def oracle(case):
             f"passing a recycled `inside` vector changes the answer for "
             f"point {pts[k]}: {int(res[k])} -> {int(r_buf[k])}; polygon "
             f"{poly}")
+    # the same point and polygon objects edited in place, then used again
+    Q2 = np.ascontiguousarray(Q.copy())
+    P2 = np.ascontiguousarray(Pc.copy())
+    r_a = gutils.points_inside_polygon(Q2, P2)
+    Q2 += 0.5
+    P2 += 0.5
+    r_b = gutils.points_inside_polygon(Q2, P2).astype(bool)
+    if case["kind"] == "lattice" and not np.array_equal(r_b, res):
+        k = int(np.argmax(r_b != res))
+        raise Violation(f"second call after the point and polygon arrays "
+                        f"were shifted in place changes the answer for "
+                        f"point {pts[k]}")
     if not judged:
         return {"nt": False, "labels": labels}
     J = np.array(judged)
